@@ -512,6 +512,41 @@ func (lp *linProver) contractFacts(l lin, b *ssa.BasicBlock) []lin {
 					}
 				}
 			}
+		case *ssa.BinOp:
+			// masks and shifts of unsigned values are bounded
+			if m, isC := constInt(x.Y); isC {
+				switch x.Op {
+				case token.AND:
+					if m >= 0 {
+						out = append(out, lin{ok: true, c: -m, ts: []lterm{{x, 1}}})
+					}
+				case token.REM:
+					if m > 0 {
+						out = append(out, lin{ok: true, c: -(m - 1), ts: []lterm{{x, 1}}})
+					}
+				case token.SHR:
+					if bt, ok := x.X.Type().Underlying().(*types.Basic); ok && m >= 0 && m < 64 {
+						bits := int64(0)
+						switch bt.Kind() {
+						case types.Uint8:
+							bits = 8
+						case types.Uint16:
+							bits = 16
+						case types.Uint32:
+							bits = 32
+						}
+						if bits > m {
+							out = append(out, lin{ok: true, c: -((int64(1) << uint(bits-m)) - 1), ts: []lterm{{x, 1}}})
+						}
+					}
+				}
+			}
+		case *ssa.Call:
+			// strings/bytes Index family: -1 <= r <= len(s) - 1
+			if isIndexCall(x) && len(x.Call.Args) >= 1 {
+				out = append(out, lin{ok: true, c: -1, ts: []lterm{{x, -1}}})
+				out = append(out, lin{ok: true, c: 1, ts: []lterm{{x, 1}}}.add(lp.lenLin(x.Call.Args[0], 0), -1))
+			}
 		case *ssa.Extract:
 			if c, ok := x.Tuple.(*ssa.Call); ok && x.Index == 0 {
 				if isIOCount(x) {
@@ -630,24 +665,26 @@ func (lp *linProver) prove(g lin, b *ssa.BasicBlock) bool {
 				loop = true
 			}
 		}
-		if loop && len(lp.hyp) > 2 {
+		if loop && len(lp.hyp) > 12 {
 			continue
 		}
 		all := len(phi.Edges) > 0
 		for i, e := range phi.Edges {
 			sub := g.add(lin{ok: true, ts: []lterm{{t.v, t.k}}}, -1).add(lp.linOf(e, 0).scale(t.k), 1)
+			// facts of the incoming edge (the predecessor's own branch outcome included)
+			var ef []lin
+			for _, a := range edgeAtoms(phi.Block().Preds[i], phi.Block()) {
+				ef = append(ef, lp.atomConstraints(a)...)
+			}
+			nh := len(lp.hyp)
+			lp.hyp = append(lp.hyp, ef...)
 			if loop && dependsOn(e, phi, 0) {
 				// inductive step: assume the goal for the phi, prove it for the next value
 				lp.hyp = append(lp.hyp, g)
-				ok := lp.proveNoPhi(sub, phi.Block().Preds[i])
-				lp.hyp = lp.hyp[:len(lp.hyp)-1]
-				if !ok {
-					all = false
-					break
-				}
-				continue
 			}
-			if !lp.proveNoPhi(sub, phi.Block().Preds[i]) {
+			ok := lp.proveNoPhi(sub, phi.Block().Preds[i])
+			lp.hyp = lp.hyp[:nh]
+			if !ok {
 				all = false
 				break
 			}
